@@ -279,7 +279,13 @@ def _err(e):
 def _pobs(o):
     if not isinstance(o, dict) or "skip" in o:
         return "skip"
-    return "(obs %s %d %d %s)" % (_err(o.get("err", "none")), o.get("diags", 0), o.get("n", 0), _flag(o.get("same")))
+    # the evaluator route is also run while only checking (with and without showSecrets): the expected number of error
+    # diagnostics is the same on all three, so the count that is judged is the evaluation's unless a check-mode count deviates
+    nd = o.get("diags", 0)
+    for k in ("check_diags", "check_show_diags"):
+        if k in o and o[k] != o.get("diags", 0):
+            nd = o[k]
+    return "(obs %s %d %d %s)" % (_err(o.get("err", "none")), nd, o.get("n", 0), _flag(o.get("same")))
 
 
 def line(c, o):
